@@ -96,6 +96,9 @@ CLAIMED = {
     "C07": ("Coq proof (a symbolic evaluator over an expression language mirrors the analytical model node for node; its formulas denote, under every assignment, the concrete model's and - on perfect assignments - the brute-force execution's counts of the instantiated mapping; same for holder occupancies) + the real run_model formulas, captured inside a real mapper run, against concrete evaluation at every perfect assignment",
             "C07_symbolic_is_concrete, C07_symbolic_is_execution, C07_symbolic_occupancy; every pmapping template the real mapper builds for random single-Einsum specs is captured together with run_model's formulas; at every perfect assignment (capped per template) every formula (latency, dynamic / leak energy, per-component actions, per-memory usage) is evaluated by exact substitution and by the code's own compile_dict path and compared with the concrete evaluation of the instantiated mapping (python twin of MiniForge for all, real evaluate_mapping for a sample); the rows of the table _make_tile_shapes emits are compared the same way; the Coq symbolic evaluator is run on the same templates. PARTIAL: single Einsum, temporal loops and memories (MiniForge class); sympy / symengine / lambdify are oracles.",
             "Coq kernel; MiniForge modelled class; sympy arithmetic trusted as oracle and checked end to end"),
+    "C08": ("Coq proof (symbol-by-symbol enumeration with Pareto pruning of partial assignments on a criteria vector emits, after Pareto filtering, exactly the objective vectors of the Pareto-filtered exhaustive enumeration - any number of symbols, prefix-dependent candidates, any validity and objectives - under soundness of the criteria; a boolean check decides that hypothesis on concrete spaces; unsound criteria refuted by witness) + the real _make_tile_shapes table against exhaustive enumeration of every perfect assignment of every captured template",
+            "C08_pruned_front_exact, C08_pruned_subset, C08_checked_instance, C08_unsound_criteria_refuted; for every pmapping template of real mapper runs on random single-Einsum specs (bounds up to 36, up to 5 symbols, finite buffers) the Pareto front of the emitted table equals the front over ALL valid perfect assignments (validity and objectives from the template's own formulas, cross-checked against the python twin; formulas tied to concrete evaluation by C07). PARTIAL: the soundness of the real criteria (built from C09's verdicts inside get_tile_shape_choices) is the theorem's hypothesis, tested not proved; single Einsum, temporal loops and memories.",
+            "Coq kernel; criteria soundness is a hypothesis, exercised by the correspondence"),
 }
 
 PENDING_REASON = "check not built yet in this round (planned, see DESIGN.md section 6); not claimed until its proof and correspondence exist"
